@@ -5,6 +5,7 @@ the constructor arguments as written.  Methods of any other shape are listed by 
 the area that models it: sendToFile -> rotate, format(QString) -> pattern, pipeline/end -> pipeline, ...)."""
 import re
 from .common import rd, need, strip_comments, AnchorError, HDR
+from .json import inline_single_use_consts
 
 
 def coq_string(s):
@@ -65,7 +66,7 @@ def generate():
     need(defs, 'fluent: SimplePipeline &SimplePipeline::<method>(...) definitions')
     for g, d in defs:
         m = need(re.match(r'SimplePipeline &SimplePipeline::(\w+)\((.*?)\) \{ (.*) \}$', d), 'fluent: definition shape %r' % d[:80])
-        name, params, body = m.group(1), m.group(2), m.group(3).strip()
+        name, params, body = m.group(1), m.group(2), inline_single_use_consts(m.group(3).strip() + ' ').strip()   # `const auto f = X; append(f);` reads as append(X)
         pnames = [param_name(p) for p in split_args(params)] if params.strip() else []
         mm = re.fullmatch(r'append\((\w+)Ptr::create\((.*)\)\); return \*this;', body)
         mi = re.fullmatch(r'append\((\w+)::instance\(\)\); return \*this;', body)
